@@ -482,6 +482,34 @@ pub unsafe extern "C-unwind" fn mkdir(path: *const c_char, mode: mode_t) -> c_in
 }
 
 #[no_mangle]
+pub unsafe extern "C-unwind" fn rmdir(path: *const c_char) -> c_int {
+    let real_rmdir = real!("rmdir", fn(*const c_char) -> c_int);
+    if !active() {
+        return real_rmdir(path);
+    }
+    let Some(p) = cpath(path) else { return real_rmdir(path) };
+    let rel = {
+        let _b = Bypass::new();
+        try_with_sim(|s| s.rel(&p)).flatten()
+    };
+    let Some(rel) = rel else { return real_rmdir(path) };
+    sched_point();
+    let _b = Bypass::new();
+    if let Verdict::Fail(e) = try_with_sim(|s| s.pre_rmdir(&rel)).unwrap_or(Verdict::Pass) {
+        try_with_sim(|s| s.post_rmdir(&rel, e));
+        set_errno(e);
+        return -1;
+    }
+    let r = real_rmdir(path);
+    let e = if r != 0 { get_errno() } else { 0 };
+    try_with_sim(|s| s.post_rmdir(&rel, e));
+    if r != 0 {
+        set_errno(e);
+    }
+    r
+}
+
+#[no_mangle]
 pub unsafe extern "C-unwind" fn flock(fd: c_int, op: c_int) -> c_int {
     let real_flock = real!("flock", fn(c_int, c_int) -> c_int);
     if !active() {
@@ -630,7 +658,6 @@ pub unsafe extern "C-unwind" fn copy_file_range(fd_in: c_int, off_in: *mut off64
 unmodelled_path!(truncate64, "truncate64", (p: *const c_char, l: off64_t), c_int, [p]);
 unmodelled_path!(link, "link", (a: *const c_char, b: *const c_char), c_int, [a, b]);
 unmodelled_path!(symlink, "symlink", (a: *const c_char, b: *const c_char), c_int, [b]);
-unmodelled_path!(rmdir, "rmdir", (p: *const c_char), c_int, [p]);
 unmodelled_path!(renameat, "renameat", (a: c_int, p: *const c_char, b: c_int, q: *const c_char), c_int, [p, q]);
 unmodelled_path!(renameat2, "renameat2", (a: c_int, p: *const c_char, b: c_int, q: *const c_char, f: libc::c_uint), c_int, [p, q]);
 unmodelled_path!(unlinkat, "unlinkat", (d: c_int, p: *const c_char, f: c_int), c_int, [p]);
